@@ -10,6 +10,7 @@ from harness.common import DRIVER, InfraError
 from harness.runtime_check import classify_error
 
 ECODE = {'dsl-raise': 1, 'await-gone': 2, 'next-gone': 3, 'cancel-gone': 4,
+         'map-empty': 7,
          'AssertionError': 5, 'KeyError': 6, 'RuntimeError': 7,
          'IndexError': 8, 'ValueError': 9}
 
@@ -55,7 +56,15 @@ class Recorder:
                 if op == 's':
                     toks += [0, ins[1]]
                 elif op == 'm':
-                    toks += [1, len(ins[1]), *ins[1]]
+                    if len(ins) > 2 and ins[2][0] in ('z', 'zn'):
+                        # map over argument lists of different lengths:
+                        # the model zips (Instr.mapArgs)
+                        toks += [7, len(ins[1]), *ins[1], 2, ins[2][1],
+                                 ins[2][2]]
+                    else:
+                        toks += [1, len(ins[1]), *ins[1]]
+                elif op == 'y':
+                    pass        # preemption point: no instruction of the model
                 elif op == 'a':
                     toks += [2, ins[1]]
                 elif op == 'n':
@@ -73,6 +82,9 @@ class Recorder:
         self.ev_pos = 0
         self.ci_mbox = {}
         self.alive_before = {}
+        self.dead = False      # a transition ran INSIDE a worker step: the
+        #                        model (handler-level atomicity) cannot follow;
+        #                        the prefix recorded so far is still compared
 
     # ---------------------------------------------------------- rendering
     def s_msg(self, src, dst, m):
@@ -225,6 +237,10 @@ class Recorder:
     def after(self, sim, rec):
         M = self.rs.M
         tr = rec['tr']
+        if rec.get('depth', 0) > 0 or rec.get('nested', 0) > 0:
+            self.dead = True
+        if self.dead:
+            return
         srv = sim.nodes['S'].obj
         for u, (mb, c) in srv.tasks.items():
             self.ci_mbox.setdefault(sim.uuid2comp[u], mb)
@@ -341,12 +357,66 @@ def diff(rec: Recorder) -> dict:
     return compare(rec, run_driver(rec.lines))
 
 
+def search_failing_input(ck, m, prop, tries=48):
+    """A model/implementation disagreement was seen in the run `m['replay']`.
+    Look for an input on which the REAL code violates the property (decided by
+    the direct oracles): continuations of prefixes of that run under other
+    schedules, and fresh schedules of the same scenario."""
+    import random
+    import re
+    from harness import runtime_check as rc
+    rp = m.get('replay')
+    if not rp or 'scenario' not in rp:
+        return None
+    sc = rc.scenario_from_json(rp['scenario'])
+    sched = [tuple(x) for x in rp['schedule']]
+    known = [e for e in ck.known.get('entries', [])
+             if e.get('status') == 'finding' and e.get('property') == prop]
+    rng = random.Random(ck.seed * 7919 + len(sched))
+    for k in range(tries):
+        cut = 0 if k % 4 == 3 else rng.randint(max(0, len(sched) // 3),
+                                               len(sched))
+        try:
+            sim, V, stats, st = rc.run_one(sc, rp['run_seed'] + 1 + k,
+                                           schedule=sched[:cut], cont=True)
+        except RuntimeError:
+            continue
+        hit = None
+        for (p_, sig, what, d) in V.items:
+            if p_ != prop:
+                continue
+            if any(re.fullmatch(e['signature'], sig) for e in known):
+                continue
+            hit = (sig, what)
+            break
+        schedule = sim.schedule()
+        sim.dispose()
+        if hit:
+            return {'oracle': hit[0], 'what': hit[1],
+                    'replay': {'scenario': sc, 'run_seed': rp['run_seed'] + 1 + k,
+                               'schedule': schedule}}
+    return None
+
+
 def report(ck, agg, prop):
     mm = agg.get('model', {})
     ck.coverage['traces_validated_against_impl'] = (
         agg['runs'] - mm.get('bad_runs', 0))
     ck.coverage['model_transitions_compared'] = mm.get('transitions', 0)
+    pre = agg.get('stats', {}).get('runs_with_a_preempted_step', 0)
+    ck.coverage['runs_compared_with_the_model_in_full'] = agg['runs'] - pre
+    ck.coverage['runs_compared_up_to_the_first_transition_inside_a_step'] = pre
     for m in mm.get('mismatch', [])[:1]:
+        found = search_failing_input(ck, m, prop)
+        if found:
+            ck.violation(
+                'correspondence:network-model',
+                'real run and Lean network model disagree at transition '
+                f'{m["at"]} ({m.get("line")}); searching from that run: '
+                f'[{found["oracle"]}] {found["what"]}',
+                {'broken': 'correspondence runtime', 'oracle': found['oracle'],
+                 **found['replay']}, found_input=True)
+            continue
         ck.violation(
             'correspondence:network-model',
             'real run and Lean network model disagree at transition '
